@@ -17,7 +17,7 @@ func init() {
 		ID: "C16",
 		Explanation: "The plugin client's two state machines and its UI dispatcher compared with the protocol table (spec/protocol.json): (R16.1) the ordered phase-1 writes that dominate the read loop are the prescribed messages (recipient or identity, grease, file key or one recipient-stanza per input stanza with index 0, label extension, done), each write's error returned; " +
 			"(R16.2) for every arm of the command switches, the set of (reply sequence, outcome) over all acyclic paths from the arm to the loop back-edge, the loop exit or a return equals the table: exactly one reply per accepted command, none after a malformed one, `unsupported` exactly when the UI did not handle it; " +
-			"(R16.3) the index is parsed and compared with 0, and repeats are rejected, before a stanza/key/labels is accepted; (R16.4) zero stanzas is an error, no file key is exactly ErrIncorrectIdentity kept by %w, a read error leaves the loop.",
+			"(R16.3) the index is parsed and compared with 0, and repeats are rejected, before a stanza/key/labels is accepted; (R16.4) zero stanzas is an error, no file key is exactly ErrIncorrectIdentity kept by %w, a read error leaves the loop. (R16.8 = R07.6) the stanza reader passes over no line; (R16.9) Wrap/WrapWithLabels/Unwrap store into no field of the client values; (R16.10) no goroutine or in-process pipe between the plugin and the reader.",
 		NotDecided:  "what a real plugin process does; timing of WaitTimer; framing arithmetic (C07).",
 		Assumptions: []string{"spec/protocol.json transcribes the age plugin protocol correctly"},
 		Technique:   "static analysis: acyclic path enumeration per switch arm over go/ssa with the write calls as the alphabet, compared as sets with a protocol table; dominance guards",
